@@ -801,7 +801,7 @@ def option_partition(ctx: Ctx, rep: Report, rid: str = "R01.11") -> None:
     rep.rule(rid)
     from .normalise import normalised
 
-    f = normalised(ctx, ctx.func("Option.line.setter"), "aliasif")
+    f = normalised(ctx, ctx.func("Option.line.setter"), "aliasif,multiret,ifexp")
     param = f.params[1]
     senv = single_env_(f)
     cfg = ctx.cfg(f)
